@@ -68,3 +68,16 @@ CLAIMED["C16"] = ("proof",
     "DESIGN.md §8 C16",
     "Trusted: Coq kernel + stdlib real axioms; Agg.v model; torch.sort/topk/cdist (compared).",
     "Coq proof + fault enumeration")
+CLAIMED["C08"] = ("proof",
+    "Coq theorems (props/C08.v), all sizes: for Q with orthonormal rows (orthogonal matrices, column permutations, "
+    "zero-column insertions are special cases) gram(J Q) = gram(J) and (w.J).Q = w.(J.Q); hence ANY weighting that "
+    "is a function of the Gramian commutes with Q (meta-theorem); each of the 12 weighted models is shown to be "
+    "literally of that Gramian form (same oracle answers / draws on both sides), giving A(J Q) = A(J) Q and the "
+    "row-span clause; TrimmedMean is column-local and maps a zero column to 0. ConFIG's model is not in Gramian "
+    "form (pinv of the unit rows): for it the clause is checked by the oracle only. Direct oracle: exact rational "
+    "orthogonal Q (signed permutations, Pythagorean Givens, integer Householder, dyadic Hadamard 1024x1024), "
+    "column permutations, 1..2^17 zero columns, span residual, f32/f64; AGG-CORR on J and J.Q.",
+    "DESIGN.md §8 C08",
+    "Trusted: Coq kernel + stdlib real axioms; Agg.v (tied by AGG-CORR); that sigma_max / pinv / eigh / solver "
+    "answers are functions of the Gramian (oracle arguments are the same on both sides of the theorem).",
+    "Coq proof (meta-theorem + instances) + differential oracle")
